@@ -456,6 +456,28 @@ def r06_13(ctx, rep):
         raise MechanismMissing(R, "fewer than 40 functions scanned in ast.py / tree.py")
 
 
+@SPEC.rule(
+    "R06.14",
+    "a copy hook only adds to the memo: no __deepcopy__ in ast.py removes an entry from the memo it was handed (pop / del / clear) — the entry "
+    "for the parent may be the one copy.deepcopy itself made when the whole tree is being copied, and without it the next sibling is given "
+    "the original tree's package as its parent",
+)
+def r06_14(ctx, rep):
+    R = "R06.14"
+    mod = ctx.module(AST, R)
+    hooks = [f for f in ast.walk(mod) if isinstance(f, ast.FunctionDef) and f.name == "__deepcopy__"]
+    if len(hooks) < 2:
+        raise MechanismMissing(R, "fewer than 2 __deepcopy__ hooks found in ast.py")
+    for h in hooks:
+        memo = h.args.args[1].arg if len(h.args.args) > 1 else "memo"
+        bad = ["line %d: %s" % (c.lineno, norm(c)[:50]) for c in calls(h) if isinstance(c.func, ast.Attribute) and is_name(c.func.value, memo)
+               and c.func.attr in ("pop", "popitem", "clear")]
+        bad += ["line %d: %s" % (d.lineno, norm(d)[:50]) for d in ast.walk(h) if isinstance(d, ast.Delete) and any(
+            isinstance(t, ast.Subscript) and is_name(t.value, memo) for t in d.targets)]
+        cls = getattr(h, "_parent", None)
+        rep.ob(R, AST + ":%s.__deepcopy__" % (cls.name if isinstance(cls, ast.ClassDef) else "?"), "the memo is only added to", not bad, "; ".join(bad[:2]))
+
+
 # -- seeded variants ---------------------------------------------------------
 from ._mut import delete_stmt_where, find_def, replace_in_func  # noqa: E402
 
